@@ -5,6 +5,7 @@ package chainprop
 
 import (
 	"fmt"
+	"strings"
 
 	"github.com/idena-network/idena-go/blockchain/types"
 	"verif/mc/chainmc"
@@ -19,6 +20,7 @@ type Action struct {
 	Jump   int   // 0: +20s; 1: next phase boundary +1s; 2: next boundary -1s
 	Expand bool
 	Custom func(t *Trans) bool // optional: property-specific transition (returns false if disabled)
+	Macro  string              // "epoch": run blocks until the validation-finishing block is in
 }
 
 // Trans describes one transition while it is being executed.
@@ -50,6 +52,9 @@ type Hooks struct {
 type Model struct {
 	Scn   []string
 	Opts  []replica.Opts
+	// Prefix[scn] lists, per set-up block, the menu templates offered before the search
+	// starts (builds pools, invitees, contracts); nil = start at genesis.
+	Prefix [][][]string
 	Menu  []world.Tmpl
 	Acts  []Action
 	names []string
@@ -91,11 +96,53 @@ func (m *Model) Init(scn int) *chainmc.State {
 	if err != nil {
 		panic(err)
 	}
-	return &chainmc.State{Img: replica.Snapshot(r.DB), Now: world.T0, Aux: map[string]string{"key": world.StateKey(r, world.T0)}}
+	st := &chainmc.State{Img: replica.Snapshot(r.DB), Now: world.T0, Aux: map[string]string{"key": world.StateKey(r, world.T0)}}
+	if scn < len(m.Prefix) {
+		for i, names := range m.Prefix[scn] {
+			c := &chainmc.Ctx{Check: false, Scn: scn, A: -1}
+			nx := m.oneBlock(scn, st, m.Drive(names...), c)
+			if nx == nil {
+				panic(fmt.Sprintf("scenario %s: prefix block %d failed", m.Scn[scn], i))
+			}
+			st = nx
+		}
+	}
+	return st
 }
 
 func (m *Model) Step(scn int, st *chainmc.State, ai int, c *chainmc.Ctx) *chainmc.State {
 	a := m.Acts[ai]
+	if a.Macro == "" {
+		return m.oneBlock(scn, st, a, c)
+	}
+	// macro "epoch": drive the chain through the ceremony phases until the block that
+	// finishes the validation has been inserted (every inner block runs the same hooks)
+	cur := st
+	for i := 0; i < 24; i++ {
+		step := Action{Name: a.Name, Jump: 1}
+		nx := m.oneBlock(scn, cur, step, c)
+		if nx == nil {
+			if strings.Contains(cur.Aux["key"], " per=0 ") {
+				return nil // no ceremony in reach
+			}
+			step = Action{Name: a.Name}
+			if nx = m.oneBlock(scn, cur, step, c); nx == nil {
+				return nil
+			}
+		}
+		cur = nx
+		if nx.Aux["lastflags"] != "" {
+			var f int
+			fmt.Sscan(nx.Aux["lastflags"], &f)
+			if f&int(types.ValidationFinished) != 0 {
+				return cur
+			}
+		}
+	}
+	return nil
+}
+
+func (m *Model) oneBlock(scn int, st *chainmc.State, a Action, c *chainmc.Ctx) *chainmc.State {
 	A, err := world.Open(m.Opts[scn], st.Img, st.Now)
 	if err != nil {
 		c.Violation("restart-failed", "start-up sequence failed on a committed image: "+err.Error(), nil)
@@ -167,6 +214,7 @@ func (m *Model) Step(scn int, st *chainmc.State, ai int, c *chainmc.Ctx) *chainm
 			return nil
 		}
 	}
+	t.NextAux["lastflags"] = fmt.Sprint(int(t.Block.Header.Flags()))
 	return &chainmc.State{Img: replica.Snapshot(A.DB), Now: now, Aux: withKey(t.NextAux, world.StateKey(A, now)+t.NextAux["keyx"])}
 }
 
@@ -216,6 +264,27 @@ func StdScenarios() ([]string, []replica.Opts) {
 	return []string{"G1-god-only", "G2-mixed", "G2-ceremony-near"}, []replica.Opts{g1, g2, g2c}
 }
 
+// RichScenario returns the G2 family after a set-up prefix: pool P with delegators D1 and D2,
+// V1/V2/P online, NEW invited by G, activated and holding stake, a time-lock contract of X1.
+func RichScenario() (string, replica.Opts, [][]string) {
+	o := world.GenesisG2()
+	o.WithCeremony = true
+	return "G2-rich(pool,invitee,contract)", o, [][]string{
+		{"online V1", "online P", "delegate D1->P", "delegate D2->P", "invite G->NEW"},
+		{"activate NEW->self", "online V2", "deploy timelock X1 stake ok"},
+		{"replenish X1->NEW 10", "submitFlip V1 pair0", "fund contract0 X2 5"},
+		{},
+	}
+}
+
+// Std installs the four standard scenarios (3 genesis families + the rich prefix scenario).
+func (m *Model) Std() {
+	m.Scn, m.Opts = StdScenarios()
+	rn, ro, rp := RichScenario()
+	m.Scn, m.Opts = append(m.Scn, rn), append(m.Opts, ro)
+	m.Prefix = [][][]string{nil, nil, nil, rp}
+}
+
 // StdDrive appends the standard driving alphabet (expandable actions).
 func (m *Model) StdDrive() {
 	m.Acts = append(m.Acts,
@@ -228,6 +297,7 @@ func (m *Model) StdDrive() {
 		Action{Name: "empty-block", Empty: true, Expand: true},
 		Action{Name: "jump-to-next-phase", Jump: 1, Expand: true},
 		Action{Name: "jump-before-next-phase", Jump: 2, Expand: true},
+		Action{Name: "run-ceremony-to-epoch-end", Macro: "epoch", Expand: true},
 	)
 }
 
